@@ -1,3 +1,4 @@
+import RR.Gen.WaitsStatus
 import RR.Proof.Kpn
 import RR.Proof.Sched
 import RR.Proof.Sync
